@@ -50,6 +50,9 @@ func encTail(f func(e *encode.Encoder)) []byte {
 	return append([]byte(nil), b[5:]...)
 }
 
+// special marks the boundary values that are driven through every public path
+var special = map[uint32]bool{}
+
 func interestingFloats(r interface{ Uint32() uint32 }, nRandom int) []uint32 {
 	seen := map[uint32]bool{}
 	var out []uint32
@@ -94,9 +97,17 @@ func interestingFloats(r interface{ Uint32() uint32 }, nRandom int) []uint32 {
 		add(math.Float32bits(float32(u) / 120))
 	}
 	for _, f := range []float32{-64, 63, 64, -65, -128, 127.984375, 128, -128.015625, 127, 16383, 16384, 1 << 24, 1 << 30, 1 << 31, 4294967296,
-		-1, -0.5, 0.5, 0.25, 1.0 / 3, 1e-38, 1e38, 3.4028235e38, 1e-45, 0.3, 0.1, 11.05, 8.95} {
+		-1, -0.5, 0.5, 0.25, 1.0 / 3, 1e-38, 1e38, 3.4028235e38, 1e-45, 0.3, 0.1, 11.05, 8.95, 129, 255, 256, 16382, 16385, 0.0078125, 126, 7.5} {
 		add(math.Float32bits(f))
 		add(math.Float32bits(-f))
+		for _, d := range []int32{0, -1, 1} {
+			special[uint32(int32(math.Float32bits(f))+d)] = true
+			special[uint32(int32(math.Float32bits(-f))+d)] = true
+		}
+	}
+	for _, u := range []uint32{0x7f7fffff, 0x7f7ffffe, 0x7f7ffffd, 0xff7fffff, 0xff7ffffe, 0x7f800000, 0xff800000, 0x7fc00000, 0x007fffff, 0x00800000, 0x807fffff, 0x3f7fffff, 0x3f7ffffe, 0x3f800001} {
+		add(u)
+		special[u] = true
 	}
 	for k := 0; k < 32; k++ {
 		add(math.Float32bits(float32(uint64(1) << uint(k))))
@@ -157,7 +168,7 @@ func driveC08(args []string) error {
 		emit(numEv{Ev: "enc", Kind: "zeroToOne", Path: "hook", V: vj, B: bytesJ(encode.VerifEncodeZeroToOne(v)), Cnt: 1})
 		counts["enc.hook"] += 3
 		// public paths; rotate so that every path sees every class over the run, and all paths on a subset
-		all := i%5 == 0
+		all := i%5 == 0 || special[u] || thorough() && i%2 == 0
 		if all || i%5 == 1 {
 			// SetLOD(v, v): c7 real real
 			t := encTail(func(e *encode.Encoder) { e.SetLOD(v, v) })
